@@ -235,10 +235,16 @@ def run_property(args):
         print(ln)
     # ---------------- evidence
     if not args.no_evidence and not args.harness and not args.limit_family:
+        level = "proof" if obligations > 0 else "other"
         ev = {
-            "property_id": prop, "tier": args.tier, "seed": args.seed, "level": "proof",
+            "property_id": prop, "tier": args.tier, "seed": args.seed, "level": level,
             "coverage": {
-                "obligations": obligations, "discharged": discharged,
+                **({"obligations": obligations, "discharged": discharged} if obligations > 0 else {}),
+                "evaluations": paths + len(static),
+                "distinct_nontrivial": obligations + bounded,
+                "rule": "evaluations = symbolic paths explored (each covers every input satisfying its path condition) + "
+                        "syntactic obligations; distinct_nontrivial = distinct named obligation instances (harness x "
+                        "parameters x obligation) that were discharged on every path, proved and bounded together",
                 "checker_cmd": f"./vcheck {prop} --tier {args.tier}",
                 "trusted_base": static_checks.trusted_base(prop, hs),
                 "by_strength": by_strength,
